@@ -198,7 +198,7 @@ def write_inputs(path, scen, runs):
             f.write(json.dumps({"k": "run", "scen": sid, "sched": h}) + "\n")
 
 
-def run_harness(inp, out, timeout=900):
+def run_harness(inp, out, timeout=1800):
     try:
         p = subprocess.run([HBIN, "run", inp, out], stdout=subprocess.PIPE, stderr=subprocess.PIPE, text=True,
                            timeout=timeout)
@@ -217,7 +217,7 @@ TVSTAT_RE = re.compile(r'^<<"STATS", (\d+), (\d+), (\d+)>>')
 HITS_RE = re.compile(r'^<<"HITS", "([^"]*)", (\d+), (\d+)>>')
 
 
-def validate_trace(trace, outdir, tag, timeout=1200):
+def validate_trace(trace, outdir, tag, timeout=3600):
     rc, out = run_tlc("TraceHL.tla", os.path.join(SPEC, "TraceHL.cfg"), outdir, "tv-" + tag, workers=1,
                       xmx="3g", timeout=timeout, env_extra={"TRACE": trace},
                       java_opts="-Xss1g -XX:ParallelGCThreads=2 -Dtlc2.tool.queue.IStateQueue=StateDeque")
